@@ -1,4 +1,5 @@
 import Rivaas.Lemmas.VersionSel
+import Rivaas.Lemmas.VersionCfg
 /-
 C13 — API-version routing follows the configured detection order.
 
@@ -411,5 +412,286 @@ example : routed ([{ ver := some vb!"v1", method := vb!"GET", path := vb!"/users
 
 /-- `unversioned_wins` is not vacuous -/
 example : routed routesEx none vb!"GET" vb!"/health" = some vb!"/health" := by decide
+
+/-! ### observer callbacks -/
+
+/-- **The detection callbacks tell the story of the detection**: `OnDetected(v, method)` is called only with the
+    version `DetectVersion` returns (and the method name of the detector that produced it), `OnMissing` only when
+    it returns the default because no detector produced an acceptable version, and every `OnInvalid(v)` reports a
+    non-empty candidate that the valid-versions list rejects; `OnDeprecatedUse` is not one of them. -/
+theorem detect_events_sound (valid : List Bytes) (dflt path rawQuery : Bytes) (dets : List (Det × LibVal)) :
+    (∀ v m, ObsEv.detected v m ∈ detectLoopEv valid path rawQuery dets →
+        detectLoop valid dflt path rawQuery dets = v ∧ ∃ d ∈ dets, d.1.method = m ∧ detectOne path rawQuery d = some v) ∧
+    (ObsEv.missing ∈ detectLoopEv valid path rawQuery dets → detectLoop valid dflt path rawQuery dets = dflt) ∧
+    (∀ v, ObsEv.invalid v ∈ detectLoopEv valid path rawQuery dets → v ≠ [] ∧ validateVersion valid v = none) ∧
+    (∀ v r, ObsEv.deprecatedUse v r ∉ detectLoopEv valid path rawQuery dets) := by
+  induction dets with
+  | nil => simp [detectLoopEv, detectLoop]
+  | cons d rest ih =>
+    obtain ⟨ih1, ih2, ih3, ih4⟩ := ih
+    cases hd : detectOne path rawQuery d with
+    | none =>
+      simp only [detectLoopEv, detectLoop, hd]
+      refine ⟨?_, ih2, ih3, ih4⟩
+      intro v m h
+      obtain ⟨h1, d', hd', hm⟩ := ih1 v m h
+      exact ⟨h1, d', List.mem_cons_of_mem _ hd', hm⟩
+    | some c =>
+      cases hv : validateVersion valid c with
+      | some ok =>
+        have hok : ok = c := by
+          unfold validateVersion at hv
+          split at hv
+          · cases hv
+          · split at hv
+            · cases hv; rfl
+            · split at hv
+              · cases hv; rfl
+              · cases hv
+        subst hok
+        simp only [detectLoopEv, detectLoop, hd, hv, List.mem_singleton, ObsEv.detected.injEq, reduceCtorEq,
+          false_implies, implies_true, not_false_eq_true, and_true]
+        rintro v m ⟨rfl, rfl⟩
+        exact ⟨rfl, d, by simp, rfl, hd⟩
+      | none =>
+        have hev : ∀ e ∈ validateEv valid c, e = ObsEv.invalid c ∧ c ≠ [] := by
+          intro e he
+          unfold validateEv at he
+          split at he
+          · cases he
+          · rename_i hc
+            split at he
+            · cases he
+            · split at he
+              · cases he
+              · simp only [List.mem_singleton] at he
+                exact ⟨he, hc⟩
+        simp only [detectLoopEv, detectLoop, hd, hv, List.mem_append]
+        refine ⟨?_, ?_, ?_, ?_⟩
+        · rintro v m (h | h)
+          · exact absurd (hev _ h).1 (by simp)
+          · obtain ⟨h1, d', hd', hm⟩ := ih1 v m h
+            exact ⟨h1, d', List.mem_cons_of_mem _ hd', hm⟩
+        · rintro (h | h)
+          · exact absurd (hev _ h).1 (by simp)
+          · exact ih2 h
+        · rintro v (h | h)
+          · obtain ⟨h1, h2⟩ := hev _ h
+            cases h1
+            exact ⟨h2, hv⟩
+          · exact ih3 v h
+        · rintro v r (h | h)
+          · exact absurd (hev _ h).1 (by simp)
+          · exact ih4 v r h
+
+theorem lemma_deprecation_not_gone (cfg : Cfg) (v : Bytes)
+    (h : (setLifecycleHeaders cfg v).1.deprecation.isSome = true) : (setLifecycleHeaders cfg v).2 = false := by
+  revert h
+  unfold setLifecycleHeaders
+  cases getLifecycle cfg.lifecycles v with
+  | none => simp
+  | some lc =>
+    simp only
+    repeat' split
+    all_goals simp
+
+/-- `OnDeprecatedUse` is called exactly for the requests that get the `Deprecation` header from a version-tree
+    handler (with the version and the route pattern that was matched) -/
+theorem deprecated_use_iff_header (cfg : Cfg) (routes : List Route) (req : Req) (v r : Bytes)
+    (h : ObsEv.deprecatedUse v r ∈ serveEvents cfg routes req) :
+    (serve cfg routes req).hDeprecation.isSome = true ∧ (serve cfg routes req).version = some v := by
+  unfold serveEvents at h
+  unfold serve
+  cases hm : treeLookup (treeRoutes routes none req.method) req.path with
+  | some p => simp [hm] at h
+  | none =>
+    simp only [hm, List.mem_append] at h ⊢
+    have hnot : ∀ l, l = detectLoopEv cfg.valid req.path req.rawQuery (detectors cfg req) → ObsEv.deprecatedUse v r ∉ l := by
+      intro l hl; rw [hl]
+      exact (detect_events_sound cfg.valid cfg.dflt req.path req.rawQuery (detectors cfg req)).2.2.2 v r
+    rcases h with h | h
+    · split at h
+      · exact absurd h (hnot _ rfl)
+      · cases h
+    · cases ht : (processVersioning cfg routes req).tree with
+      | none => simp only [ht] at h; exact absurd h (hnot _ rfl)
+      | some tv =>
+        simp only [ht] at h ⊢
+        cases hl : treeLookup (treeRoutes routes (some tv) req.method) (processVersioning cfg routes req).routingPath with
+        | none => simp only [hl] at h; exact absurd h (hnot _ rfl)
+        | some p =>
+          simp only [hl] at h ⊢
+          split at h
+          · rename_i hdep
+            simp only [List.mem_singleton, ObsEv.deprecatedUse.injEq] at h
+            obtain ⟨rfl, rfl⟩ := h
+            have hg := lemma_deprecation_not_gone cfg (processVersioning cfg routes req).version hdep
+            cases hs : setLifecycleHeaders cfg (processVersioning cfg routes req).version with
+            | mk hh gone =>
+              rw [hs] at hg hdep
+              simp only at hg hdep
+              subst hg
+              simp [hdep]
+          · cases h
+
+/-- not vacuous: two candidates rejected by the valid list, the third accepted -/
+example : detectLoopEv [vb!"v1", vb!"v2"] vb!"/x" vb!"v=v9"
+      [(.header vb!"X-V", .header vb!"v7"), (.query vb!"v", .query true vb!"v9"), (.custom 1, .custom vb!"v2")] =
+    [.invalid vb!"v7", .invalid vb!"v9", .detected vb!"v2" vb!"custom"] := by decide
+
+/-! ### the configuration step (`version.NewConfig` and the option functions) -/
+
+theorem lemma_newPathDetector_pattern (p : Bytes) : (newPathDetector p).pattern = p := by
+  unfold newPathDetector
+  split <;> rfl
+
+theorem lemma_fold_dflt_ne (opts : List Opt) (b : Built) (hb : b.dflt ≠ []) (hw : opts.all wellFormed = true) :
+    (opts.foldl upd b).dflt ≠ [] := by
+  induction opts generalizing b with
+  | nil => exact hb
+  | cons o rest ih =>
+    simp only [List.all_cons, Bool.and_eq_true] at hw
+    rw [List.foldl_cons]
+    apply ih _ _ hw.2
+    cases o with
+    | dflt v => simpa [upd, wellFormed] using hw.1
+    | det d => simp only [upd]; split <;> exact hb
+    | _ => exact hb
+
+/-- `Config.validate` can never fail after the option functions have succeeded: both of its tests repeat what
+    `WithDefault` / `WithPathDetection` already enforce (and `NewConfig` starts from the default `v1`) -/
+theorem validate_redundant (opts : List Opt) (b : Built) (h : applyAll Built.init opts = .ok b) :
+    validate b = .ok b := by
+  have hw : opts.all wellFormed = true := by
+    cases hall : opts.all wellFormed with
+    | true => rfl
+    | false =>
+      obtain ⟨e, he⟩ := (lemma_applyAll opts Built.init).2 hall
+      rw [he] at h; cases h
+  have hb : b = opts.foldl upd Built.init := by
+    rw [(lemma_applyAll opts Built.init).1 hw] at h
+    cases h; rfl
+  have hd : b.dflt ≠ [] := by rw [hb]; exact lemma_fold_dflt_ne opts _ (by decide) hw
+  have hp : b.dets.any Det.lacksPlaceholder = false := by
+    rw [hb, lemma_upd_dets]
+    simp only [Built.init, List.append_nil, List.any_append, List.any_map, List.any_reverse, Bool.or_eq_false_iff,
+      List.any_eq_false, List.mem_filter, List.mem_filterMap, Function.comp]
+    have key : ∀ d, (∃ o ∈ opts, detOf o = some d) →
+        ¬(toDet d).lacksPlaceholder = true := by
+      rintro d ⟨o, ho, hdo⟩
+      have hwo : wellFormed o = true := (List.all_eq_true.1 hw) o ho
+      cases o with
+      | det d' =>
+        simp only [detOf, Option.some.injEq] at hdo
+        subst hdo
+        cases d' with
+        | path p =>
+          simp only [toDet, Det.lacksPlaceholder, lemma_newPathDetector_pattern]
+          simp only [wellFormed, hasPlaceholder, Bool.and_eq_true] at hwo
+          simp [containsSub, hwo.2]
+        | _ => simp [toDet, Det.lacksPlaceholder]
+      | _ => simp [detOf] at hdo
+    exact ⟨fun d hd => key d hd.1, fun d hd => key d hd.1⟩
+  unfold validate
+  rw [if_neg hd, if_neg (by rw [hp]; exact Bool.false_ne_true)]
+
+/-- **Configuration is accepted exactly when every option is well-formed** (empty names / patterns, a pattern
+    without `{version}`, a nil custom detector, an empty default, an empty valid list or entry are rejected — by the
+    first offending option) -/
+theorem newConfig_accepts_iff (opts : List Opt) :
+    (∃ b, newConfig opts = .ok b) ↔ opts.all wellFormed = true := by
+  constructor
+  · rintro ⟨b, hb⟩
+    cases hall : opts.all wellFormed with
+    | true => rfl
+    | false =>
+      obtain ⟨e, he⟩ := (lemma_applyAll opts Built.init).2 hall
+      simp [newConfig, he] at hb
+  · intro hw
+    have h := (lemma_applyAll opts Built.init).1 hw
+    refine ⟨opts.foldl upd Built.init, ?_⟩
+    simp only [newConfig, h]
+    exact validate_redundant opts _ h
+
+/-- an accepted configuration in closed form -/
+theorem newConfig_ok (opts : List Opt) (b : Built) (h : newConfig opts = .ok b) :
+    opts.all wellFormed = true ∧ b = opts.foldl upd Built.init := by
+  have hw := (newConfig_accepts_iff opts).1 ⟨b, h⟩
+  have h1 := (lemma_applyAll opts Built.init).1 hw
+  simp only [newConfig, h1, validate_redundant opts _ h1] at h
+  cases h
+  exact ⟨hw, rfl⟩
+
+/-- **The detectors of an accepted configuration are consulted in the order of the statement**: custom detectors
+    first (the one configured last first), then path / header / query / Accept in configuration order — for an
+    ARBITRARY list of options (any number of detectors of any kind, duplicates included) -/
+theorem newConfig_detection_order (opts : List Opt) (b : Built) (h : newConfig opts = .ok b) :
+    b.dets = (detectionOrder ((opts.filterMap detOf).map fun d => (d, ()))).map fun p => toDet p.1 := by
+  rw [(newConfig_ok opts b h).2, lemma_upd_dets]
+  simp [Built.init, detectionOrder, List.filter_map, Function.comp_def, List.map_reverse]
+
+/-- an accepted configuration satisfies the hypothesis `ValidCfg` of `serve_meets_spec` -/
+theorem newConfig_valid_cfg (opts : List Opt) (b : Built) (h : newConfig opts = .ok b) (now : Nat)
+    (lcs : List (Bytes × LC)) :
+    ValidCfg { opts := opts.filterMap detOf, dflt := b.dflt, valid := b.valid,
+               sendVersionHeader := b.sendVersionHeader, sendWarning299 := b.sendWarning299,
+               enforceSunset := b.enforceSunset, now := now, lifecycles := lcs } := by
+  obtain ⟨hw, hb⟩ := newConfig_ok opts b h
+  refine ⟨?_, ?_⟩
+  · show b.dflt ≠ []
+    rw [hb]; exact lemma_fold_dflt_ne opts _ (by decide) hw
+  · intro p hp
+    simp only [List.mem_filterMap] at hp
+    obtain ⟨o, ho, hdo⟩ := hp
+    have hwo : wellFormed o = true := (List.all_eq_true.1 hw) o ho
+    cases o with
+    | det d' =>
+      simp only [detOf, Option.some.injEq] at hdo
+      subst hdo
+      simp only [wellFormed, hasPlaceholder, Bool.and_eq_true] at hwo
+      cases hi : index p versionPlaceholder with
+      | none => simp [hi] at hwo
+      | some i => exact ⟨i, rfl⟩
+    | _ => simp [detOf] at hdo
+
+/-- **C13 (configuration).** What the public API shows of `version.New(opts…)` satisfies the configuration oracle:
+    accepted exactly for well-formed options, detectors in the order of the statement, non-empty default (last
+    `WithDefault`, else `v1`), valid list of the last `WithValidVersions`, response behaviours as switched on. -/
+theorem newConfig_meets_spec (opts : List Opt) : cfgSpecOK opts (observeCfg opts) = true := by
+  unfold observeCfg
+  cases h : newConfig opts with
+  | error e =>
+    simp only [cfgSpecOK]
+    cases hall : opts.all wellFormed with
+    | true =>
+      obtain ⟨b, hb⟩ := (newConfig_accepts_iff opts).2 hall
+      rw [hb] at h; cases h
+    | false =>
+      simp only [List.all_eq_false] at hall
+      obtain ⟨o, ho, hwo⟩ := hall
+      exact List.any_eq_true.2 ⟨o, ho, by simpa using hwo⟩
+  | ok b =>
+    obtain ⟨hw, hb⟩ := newConfig_ok opts b h
+    have hd : b.dflt ≠ [] := by rw [hb]; exact lemma_fold_dflt_ne opts _ (by decide) hw
+    have hord := newConfig_detection_order opts b h
+    obtain ⟨f1, f2, f3, f4⟩ := lemma_upd_flags opts Built.init
+    have hdf := lemma_upd_dflt opts Built.init
+    have hvl := lemma_upd_valid opts Built.init
+    rw [← hb] at f1 f2 f3 f4 hdf hvl
+    simp only [cfgSpecOK, hw, Bool.true_and, Bool.and_eq_true, beq_iff_eq, bne_iff_ne, ne_eq]
+    refine ⟨⟨⟨⟨⟨⟨⟨hd, ?_⟩, hdf⟩, hvl⟩, by simpa [Built.init] using f1⟩, by simpa [Built.init] using f2⟩,
+      by simpa [Built.init] using f3⟩, by simpa [Built.init] using f4⟩
+    rw [hord, List.map_map]
+    apply List.map_congr_left
+    rintro ⟨d, u⟩ _
+    cases d <;> rfl
+
+/-- not vacuous: an ill-formed option in the middle, and an accepted configuration with two custom detectors -/
+example : observeCfg [.det (.header vb!"X-V"), .det (.path vb!"/api/"), .dflt vb!"v2"] = .rejected .missingPlaceholder ∧
+    observeCfg [.det (.path vb!"/v{version}/"), .det (.custom 1), .valid [vb!"v1", vb!"v2"], .det (.query vb!"v"),
+                .det (.custom 2), .dflt vb!"v3", .warning299, .dflt vb!"v2"] =
+      .accepted [vb!"custom", vb!"custom", vb!"path", vb!"query"] vb!"v2" [vb!"v1", vb!"v2"] false true false false ∧
+    observeCfg [.valid [vb!"v1", [], vb!"v3"]] = .rejected (.emptyVersionEntry 1) ∧
+    observeCfg [] = .accepted [] vb!"v1" [] false false false false := by decide
 
 end Rivaas.C13
